@@ -55,11 +55,17 @@ package util
 //@ lemma install-order-has-no-duplicates: [C08] distinctKinds(InstallOrder)
 //@ lemma uninstall-order-has-no-duplicates: [C08] distinctKinds(UninstallOrder)
 
+//@ func FilterFunc.Check
+//@   props C03
+//@   ensures [nil-never-passes] result ==> rls != nil
+
 //@ func FilterFunc.Filter
 //@   props C03
-//@   trusted
+//@   opt append exact
 //@   ensures [subset] forall j int :: 0 <= j && j < len(rets) ==> rets[j] != nil && (exists i int :: 0 <= i && i < len(rels) && rels[i] == rets[j])
 //@   ensures [fresh-list] len(rets) == 0 || fresh(rets)
+//@   loop 1 invariant [kept-so-far] forall j int :: 0 <= j && j < len(rets) ==> rets[j] != nil && (exists i int :: 0 <= i && i < #iter && rels[i] == rets[j])
+//@   loop 1 invariant [fresh-so-far] rets == nil || fresh(rets)
 
 // SortManifests: the rendered files are processed in ascending path order (a function of the set of
 // paths, not of map iteration order — C05), each through manifestFile.sort. That slices which existed
@@ -72,6 +78,7 @@ package util
 
 //@ func SortManifests
 //@   props C05 C08
+//@   opt append exact
 //@   requires distinctKinds(ordering)
 //@   marks forall l []*rspb.Hook, i int :: !fresh(l) ==> l[i] == old(l[i])
 //@   ensures [heads-parsed] forall j int :: 0 <= j && j < len(result1) ==> result1[j].Head != nil
@@ -81,7 +88,7 @@ package util
 //@   ensures [manifests-ordered-by-kind] result2 == nil ==> (forall a, b int :: 0 <= a && a < b && b < len(result1) ==> !kindBefore(result1[b].Head.Kind, result1[a].Head.Kind, ordering))
 //@   ensures [hooks-ordered-by-kind] result2 == nil ==> (forall a, b int :: 0 <= a && a < b && b < len(result0) ==> result0[a] != nil && result0[b] != nil && !kindBefore(result0[b].Kind, result0[a].Kind, ordering))
 //@   loop 1 invariant [order-table-untouched] distinctKinds(ordering) && result != nil && len(result.generic) == 0 && len(result.hooks) == 0
-//@   loop 1 invariant [paths-in-a-new-list] len(sortedFilePaths) == 0 || fresh(sortedFilePaths)
+//@   loop 1 invariant [paths-in-a-new-list] sortedFilePaths == nil || fresh(sortedFilePaths)
 //@   loop 1 invariant [visited-paths-listed] forall p string :: #done[p] ==> (exists j int :: 0 <= j && j < len(sortedFilePaths) && sortedFilePaths[j] == p)
 //@   ensures [every-rendered-file-is-sorted] result2 == nil ==> (forall p string :: has(files, p) && !strings.HasPrefix(pbase(p), "_") && trimspace(files[p]) != "" ==> GsortedFiles[p])
 //@   loop 1 invariant [only-paths-listed] forall j int :: 0 <= j && j < len(sortedFilePaths) ==> has(files, sortedFilePaths[j])
